@@ -143,6 +143,7 @@ impl<'c, KD: Kind, const N: usize> MapEng<'c, KD, N> {
                 2 => {
                     cx.bump(S::forgets);
                     std::mem::forget(d);
+                    tl::mark_may_leak();
                     if KD::TRACKED {
                         for o in &pre_obs {
                             if !yielded.iter().any(|y| y.kid == o.kid) {
@@ -709,6 +710,7 @@ impl<'c, KD: Kind, const N: usize> MapEng<'c, KD, N> {
                         2 => {
                             cx.bump(S::forgets);
                             std::mem::forget(it);
+                    tl::mark_may_leak();
                             if KD::TRACKED {
                                 for e in &pre_obs {
                                     // anything not handed out may stay alive forever
